@@ -386,16 +386,19 @@ Definition handle_request (q : req) (ow : option waiter) (s : cstate) : hres :=
   if has_reply q then handle_request_body q ow s
   else handle_request_body q None (resolve ow Dropped s).
 
-(* abort_function_call (1816-1825): FunctionCallMap::abort overwrites Pending(sender) with Aborted *)
+(* FunctionCallMap::abort overwrites Pending(sender) with Aborted (the sender is dropped) *)
+Definition mark_aborted (serial : N) (s : cstate) : cstate :=
+  match lookup MFunctionCalls serial (maps s) with
+  | Some _ =>
+      let (x, s') := takem MFunctionCalls serial s in
+      let w := ewo x in
+      resolve w Dropped (set_maps (mkE MFunctionCalls serial None SAborted 0 false false :: maps s') s')
+  | None => s
+  end.
+
+(* abort_function_call (1816-1825) *)
 Definition abort_function_call (serial : N) (s : cstate) : hres :=
-  let s1 :=
-    match lookup MFunctionCalls serial (maps s) with
-    | Some _ =>
-        let (x, s') := takem MFunctionCalls serial s in
-        let w := ewo x in
-        resolve w Dropped (set_maps (mkE MFunctionCalls serial None SAborted 0 false false :: maps s') s')
-    | None => s
-    end in
+  let s1 := mark_aborted serial s in
   if ge (ver s) 16 then ok (send OAbortFunctionCall (Some serial) s1) else ok s1.
 
 (* ------------------------------------------------------------------ handle_message (326-1173) *)
@@ -738,7 +741,7 @@ Definition step (s : cstate) (i : input) : cstate :=
             | [] => s
             | (_, ow) :: r => resolve ow Dropped (set_queue r s)
             end
-        | ISelAbort _ => s                                                          (* 319 *)
+        | ISelAbort serial => mark_aborted serial s                                 (* 317: marked, nothing sent *)
         | IEnqueue _ => s
         end
     end
